@@ -21,10 +21,18 @@ use tensor_store::{SyncMode, TensorStore, WalConfig};
 
 #[derive(Serialize, Deserialize, Clone, Debug, PartialEq)]
 pub enum Op {
+    /// `v` < 200: value kind of `storeutil::gen_value`; `v` >= 200: one opaque bytes
+    /// value of (v - 199) * 6 MiB (v = 202: 18 MiB, a single log record above 16 MiB)
     Put { k: u8, v: u8, u: u32 },
     Del { k: u8 },
     Sync,
     Checkpoint,
+    /// the non-logged `put` on the same durable store (documented as not durable:
+    /// it may survive through a later snapshot or vanish, it must never hurt a
+    /// durable write)
+    PutPlain { k: u8, v: u8, u: u32 },
+    /// the non-logged `delete`
+    DelPlain { k: u8 },
 }
 
 #[derive(Serialize, Deserialize, Clone, Debug, PartialEq)]
@@ -74,6 +82,50 @@ fn wal_config(case: &Case) -> WalConfig {
 enum MOp {
     Put(String, TensorData),
     Del(String),
+    /// non-logged write: part of a recovered state only through a snapshot
+    /// taken after it
+    PlainPut(String, TensorData),
+    PlainDel(String),
+}
+
+impl MOp {
+    fn durable(&self) -> bool {
+        matches!(self, MOp::Put(..) | MOp::Del(..))
+    }
+}
+
+/// k < 200: the shared key universe; 200.. : further embedding keys (three or
+/// more `emb:` keys give the entity index something to renumber)
+fn key_of(k: u8) -> &'static str {
+    match k {
+        200 => "emb:c",
+        201 => "emb:d",
+        202 => "emb:e",
+        _ => KEY_UNIVERSE[k as usize % KEY_UNIVERSE.len()],
+    }
+}
+
+fn all_keys() -> Vec<&'static str> {
+    let mut v: Vec<&'static str> = KEY_UNIVERSE.to_vec();
+    v.extend(["emb:c", "emb:d", "emb:e"]);
+    v
+}
+
+fn huge_value(v: u8, u: u32) -> TensorData {
+    let n = (usize::from(v) - 199) * 6 * 1024 * 1024;
+    let mut x = (u64::from(u) << 1 | 1).wrapping_mul(0x9E37_79B9_7F4A_7C15);
+    let mut b = Vec::with_capacity(n + 8);
+    while b.len() < n {
+        x ^= x << 13;
+        x ^= x >> 7;
+        x ^= x << 17;
+        b.extend_from_slice(&x.to_le_bytes());
+    }
+    b.truncate(n);
+    let mut d = TensorData::new();
+    d.set("_u", tensor_store::TensorValue::Scalar(tensor_store::ScalarValue::Int(i64::from(u))));
+    d.set("big", tensor_store::TensorValue::Scalar(tensor_store::ScalarValue::Bytes(b)));
+    d
 }
 
 /// documented reconstruction error of lossily stored long vectors
@@ -81,10 +133,10 @@ const TOL: f32 = 0.02;
 
 fn apply(m: &mut BTreeMap<String, TensorData>, op: &MOp) {
     match op {
-        MOp::Put(k, v) => {
+        MOp::Put(k, v) | MOp::PlainPut(k, v) => {
             m.insert(k.clone(), v.clone());
         },
-        MOp::Del(k) => {
+        MOp::Del(k) | MOp::PlainDel(k) => {
             m.remove(k);
         },
     }
@@ -135,14 +187,41 @@ impl<'a> Trial<'a> {
 
     fn exec_op(&mut self, store: &TensorStore, op: &Op) {
         match op {
+            Op::PutPlain { k, v, u } => {
+                let key = key_of(*k);
+                // kept off emb: keys (their vector slab merges with earlier writes, see
+                // below) and off the non-durable cache class
+                if key.starts_with("emb:") || key.starts_with("_cache:") {
+                    return;
+                }
+                let kind = if *v % 12 == 10 || *v % 12 == 11 { 6 } else { *v % 12 };
+                let val = gen_value(kind, *u);
+                if store.put(key, val.clone()).is_ok() {
+                    self.hist.push(MOp::PlainPut(key.to_string(), val));
+                    self.ctx.probe("plain_write_on_durable_store");
+                }
+            },
+            Op::DelPlain { k } => {
+                let key = key_of(*k);
+                if key.starts_with("emb:") || key.starts_with("_cache:") {
+                    return;
+                }
+                let _ = store.delete(key);
+                self.hist.push(MOp::PlainDel(key.to_string()));
+            },
             Op::Put { k, v, u } => {
-                let key = KEY_UNIVERSE[*k as usize % KEY_UNIVERSE.len()];
+                let key = key_of(*k);
                 // `_embedding` is the reserved field of emb: keys; on other key classes a
                 // put carrying it registers the key in the entity index and a later
                 // delete leaves scan() listing it (live-store semantics, not judged here),
                 // so those value kinds are used on emb: keys only.
                 let kind = if !key.starts_with("emb:") && (*v % 12 == 10 || *v % 12 == 11) { 6 } else { *v };
-                let val = gen_value(kind, *u);
+                let val = if *v >= 200 && !key.starts_with("emb:") {
+                    self.ctx.probe("log_record_above_16mib");
+                    huge_value((*v).min(202), *u)
+                } else {
+                    gen_value(kind % 12, *u)
+                };
                 // Prediction of what a reader sees after this put, used only if the put
                 // is cut short by the crash (completed puts are read back from the live
                 // store). emb: keys keep their vector in a separate slab: a put without
@@ -178,7 +257,7 @@ impl<'a> Trial<'a> {
                 }
             },
             Op::Del { k } => {
-                let key = KEY_UNIVERSE[*k as usize % KEY_UNIVERSE.len()];
+                let key = key_of(*k);
                 let durable_key = !key.starts_with("_cache:");
                 if durable_key {
                     self.hist.push(MOp::Del(key.to_string()));
@@ -218,24 +297,79 @@ impl<'a> Trial<'a> {
             },
         };
         let got = dump_store_data(&store, true);
-        // candidate prefixes
+        // candidate prefixes. Non-logged writes are in a recovered state only through a
+        // snapshot taken after them: a candidate is "everything up to position q (the
+        // snapshot), then only the logged operations up to position p". Without
+        // non-logged writes in the history this is the plain prefix search.
         let mut m = self.base.clone();
         let mut matched: Option<usize> = None;
         let mut matched_below_ack: Option<usize> = None;
-        if maps_equiv(&m, &got, TOL) {
-            if self.ack == 0 {
-                matched = Some(0);
+        let has_plain = self.hist.iter().any(|o| !o.durable());
+        let note = |p: usize, matched: &mut Option<usize>, below: &mut Option<usize>| {
+            if p >= self.ack {
+                *matched = Some(matched.map_or(p, |x: usize| x.max(p)));
             } else {
-                matched_below_ack = Some(0);
+                *below = Some(p);
             }
+        };
+        if maps_equiv(&m, &got, TOL) {
+            note(0, &mut matched, &mut matched_below_ack);
         }
         for (i, op) in self.hist.iter().enumerate() {
             apply(&mut m, op);
             if maps_equiv(&m, &got, TOL) {
-                if i + 1 >= self.ack {
-                    matched = Some(i + 1);
-                } else {
-                    matched_below_ack = Some(i + 1);
+                note(i + 1, &mut matched, &mut matched_below_ack);
+            }
+        }
+        if has_plain && matched.is_none() {
+            // Keys written by non-logged calls are judged loosely. For a prefix of p
+            // logged operations, such a key may hold what the logged prefix gives it, or
+            // what any non-logged write issued after the key's last logged write of that
+            // prefix gave it (it can have reached a snapshot): a non-logged write may
+            // survive or vanish, but never undo a later logged write. All other keys
+            // must equal the logged prefix exactly.
+            let touched: std::collections::BTreeSet<&str> = self
+                .hist
+                .iter()
+                .filter_map(|o| match o {
+                    MOp::PlainPut(k, _) | MOp::PlainDel(k) => Some(k.as_str()),
+                    _ => None,
+                })
+                .collect();
+            let same = |a: Option<&TensorData>, b: Option<&TensorData>| match (a, b) {
+                (None, None) => true,
+                (Some(x), Some(y)) => crate::storeutil::data_equiv(x, y, TOL),
+                _ => false,
+            };
+            for p in 0..=self.hist.len() {
+                let mut c = self.base.clone();
+                let mut last_logged: BTreeMap<&str, usize> = BTreeMap::new();
+                for (i, op) in self.hist[..p].iter().enumerate() {
+                    if op.durable() {
+                        apply(&mut c, op);
+                        if let MOp::Put(k, _) | MOp::Del(k) = op {
+                            last_logged.insert(k.as_str(), i);
+                        }
+                    }
+                }
+                let keys: std::collections::BTreeSet<&str> = c.keys().map(String::as_str).chain(got.keys().map(String::as_str)).chain(touched.iter().copied()).collect();
+                let ok = keys.iter().all(|k| {
+                    let g = got.get(*k);
+                    if same(c.get(*k), g) {
+                        return true;
+                    }
+                    if !touched.contains(k) {
+                        return false;
+                    }
+                    let from = last_logged.get(k).map_or(0, |i| i + 1);
+                    self.hist[from..].iter().any(|o| match o {
+                        MOp::PlainPut(kk, v) if kk == k => same(Some(v), g),
+                        MOp::PlainDel(kk) if kk == k => g.is_none(),
+                        _ => false,
+                    })
+                });
+                if ok {
+                    note(p, &mut matched, &mut matched_below_ack);
                 }
             }
         }
@@ -245,7 +379,7 @@ impl<'a> Trial<'a> {
                     self.ctx.probe("unacked_suffix_lost_legitimately");
                 }
                 // exists() must agree with the dump for every key of the universe
-                for k in KEY_UNIVERSE {
+                for k in &all_keys() {
                     if k.starts_with("_cache:") {
                         continue;
                     }
@@ -483,7 +617,7 @@ impl Scenario for C02 {
     }
     fn runs(&self, tier: Tier) -> u64 {
         match tier {
-            Tier::Quick => 600,
+            Tier::Quick => 900,
             Tier::Thorough => 12_000,
         }
     }
@@ -498,13 +632,38 @@ impl Scenario for C02 {
         let mut ops = Vec::new();
         let mut u = (index as u32) << 8;
         let ckpt_w = *rng.pick(&[0u64, 1, 2, 3]);
+        // swarm: a quarter of the programs mix in non-logged writes, a quarter work on
+        // five embedding keys
+        let plain = rng.chance(1, 4);
+        let many_emb = rng.chance(1, 3);
+        let key = |rng: &mut Rng| -> u8 {
+            if many_emb && rng.chance(1, 2) {
+                *rng.pick(&[2u8, 3, 200, 201, 202])
+            } else {
+                rng.below(u64::from(nkeys)) as u8
+            }
+        };
         for _ in 0..n_ops {
             u += 1;
             let r = rng.below(20);
-            let op = if r < 11 {
-                Op::Put { k: rng.below(u64::from(nkeys)) as u8, v: rng.below(12) as u8, u }
+            let op = if plain && r < 4 {
+                let k = key(rng);
+                let v = rng.below(10) as u8;
+                if rng.chance(1, 3) {
+                    Op::DelPlain { k }
+                } else {
+                    if rng.chance(1, 2) {
+                        // the same value once more, this time through the durable call
+                        ops.push(Op::PutPlain { k, v, u });
+                        ops.push(Op::Put { k, v, u });
+                        continue;
+                    }
+                    Op::PutPlain { k, v, u }
+                }
+            } else if r < 11 {
+                Op::Put { k: key(rng), v: if many_emb && rng.chance(2, 3) { 10 } else { rng.below(12) as u8 }, u }
             } else if r < 15 {
-                Op::Del { k: rng.below(u64::from(nkeys)) as u8 }
+                Op::Del { k: key(rng) }
             } else if r < 17 {
                 Op::Sync
             } else if r < 17 + ckpt_w {
@@ -530,6 +689,12 @@ impl Scenario for C02 {
                     .collect(),
             )
         };
+        // one very large value (a single log record of 12-18 MiB) in a few seeded-crash programs
+        if mode != Mode::Enumerate && rng.chance(1, 12) {
+            let at = rng.usize_below(ops.len() + 1);
+            u += 1;
+            ops.insert(at, Op::Put { k: *rng.pick(&[0u8, 1, 4, 8]), v: *rng.pick(&[201u8, 202, 202]), u });
+        }
         Case { sync, batch_n: rng.range(1, 4) as usize, max_size, ops, mode }
     }
 
@@ -647,7 +812,7 @@ impl Scenario for C02 {
         // simpler values
         for (i, op) in case.ops.iter().enumerate() {
             if let Op::Put { k, v: kind, u } = op {
-                if *kind != 2 {
+                if *kind != 2 && *kind < 200 {
                     let mut c = case.clone();
                     c.ops[i] = Op::Put { k: *k, v: 2, u: *u };
                     v.push(c);
@@ -668,7 +833,7 @@ impl Scenario for C02 {
         ]
     }
     fn rule(&self) -> String {
-        "A case is a generated program of <=12 durable put/delete/sync/checkpoint operations over all value kinds and key classes plus a sync mode and log size limit; in Enumerate mode every mutating syscall boundary of the program (write, fsync, rename, open(O_TRUNC), unlink) and sampled byte offsets inside every write are each taken as a crash point (inner_enumerated_points counts these executions), each followed by recovery, the rest of the program on the recovered store and a second recovery; Chain mode runs 1-3 seeded crashes in one execution. Non-trivial: at least one crash fired (Chain) or the program issued >=2 mutating syscalls (Enumerate). Distinct: hash of (sync mode, mode, sequence of syscall kinds / crash sites).".into()
+        "A case is a generated program of <=12 durable put/delete/sync/checkpoint operations over all value kinds (a few seeded-crash programs with one 12-18 MiB value) and key classes (a quarter of the programs on five embedding keys), in a quarter of the programs mixed with the non-logged put/delete of the same store, plus a sync mode and log size limit; in Enumerate mode every mutating syscall boundary of the program (write, fsync, rename, open(O_TRUNC), unlink) and sampled byte offsets inside every write are each taken as a crash point (inner_enumerated_points counts these executions), each followed by recovery, the rest of the program on the recovered store and a second recovery; Chain mode runs 1-3 seeded crashes in one execution. Non-trivial: at least one crash fired (Chain) or the program issued >=2 mutating syscalls (Enumerate). Distinct: hash of (sync mode, mode, sequence of syscall kinds / crash sites).".into()
     }
     fn components(&self) -> Value {
         json!({
@@ -683,6 +848,7 @@ impl Scenario for C02 {
             "power loss cuts files at byte-prefix granularity only; no reordering of blocks inside one file, no bit corruption".into(),
             "a checkpoint returning Ok is not treated as an acknowledgement (the statement lists only immediate-mode returns and explicit syncs)".into(),
             "_cache: keys are ignored in comparisons (documented non-durable)".into(),
+            "non-logged put/delete on the durable store (kept off emb: keys) are documented as not durable: a recovered state may contain them only as a whole prefix (everything before a snapshot), never has to".into(),
         ]
     }
 }
